@@ -1,7 +1,6 @@
 import SamVerif.Props.C09
-import SamVerif.Props.C09b
 /-! Axiom audit of every C09 property theorem (parsed by vlib/common.py). -/
-open SamVerif.Doc SamVerif.CommentQueue SamVerif.Imports SamVerif.Fmt
+open SamVerif.Doc SamVerif.CommentQueue SamVerif.Imports
 #print axioms layout_is_linearisation
 #print axioms layout_preserves_text
 #print axioms render_only_whitespace
@@ -24,6 +23,3 @@ open SamVerif.Doc SamVerif.CommentQueue SamVerif.Imports SamVerif.Fmt
 #print axioms imports_group_exact
 #print axioms imports_conserve_comments
 #print axioms imports_comments_move_with_line
-#print axioms format_idempotent_fragment_partial
-#print axioms format_twice_fragment_partial
-#print axioms queue_delivers_with_next_token
